@@ -115,6 +115,9 @@ func match(r *Repr, t *cqlref.Type, v *cqlref.Value, got reflect.Value, path str
 		if got.Len() != n {
 			return bad("got %d entries, want %d", got.Len(), n)
 		}
+		if n > 8 {
+			return matchBigMap(r, t, v, got, path, bad)
+		}
 		// bipartite matching with backtracking (n <= 4 in generated cases): a greedy assignment
 		// can pair a lenient match (nil slice for an empty value) with the wrong entry
 		ok := make([][]bool, n)
@@ -197,6 +200,60 @@ func match(r *Repr, t *cqlref.Type, v *cqlref.Value, got reflect.Value, path str
 		return bad("got %s (%s), want %s", cqlref.Format(t, back), show(got), cqlref.Format(t, v))
 	}
 	return nil
+}
+
+// matchBigMap matches maps with many entries in linear time: the decoded keys are converted
+// back to abstract values (scalar key representations, possibly behind pointers) and looked up by
+// their canonical format.
+func matchBigMap(r *Repr, t *cqlref.Type, v *cqlref.Value, got reflect.Value, path string, bad func(string, ...interface{}) error) error {
+	kr := r.Sub[0]
+	want := make(map[string]int, len(v.Elems)/2)
+	for i := 0; i+1 < len(v.Elems); i += 2 {
+		want[cqlref.Format(t.Elems[0], v.Elems[i])] = i
+	}
+	it := got.MapRange()
+	for it.Next() {
+		k, rr := it.Key(), kr
+		for rr.K == RPtr && k.Kind() == reflect.Ptr && !k.IsNil() {
+			k, rr = k.Elem(), rr.Sub[0]
+		}
+		if !rr.IsScalar() {
+			return bad("map of %d entries with key representation %s: not supported by the matcher", got.Len(), kr)
+		}
+		ak, err := FromGo(rr, t.Elems[0], k)
+		if err != nil {
+			return bad("key %s: %v", show(k), err)
+		}
+		i, ok := want[cqlref.Format(t.Elems[0], ak)]
+		if !ok {
+			return bad("decoded key %s has no counterpart (or appears twice)", show(k))
+		}
+		delete(want, cqlref.Format(t.Elems[0], ak))
+		if err := match(r.Sub[1], t.Elems[1], v.Elems[i+1], it.Value(), path+"{value}"); err != nil {
+			return err
+		}
+	}
+	if len(want) != 0 {
+		return bad("%d entries missing", len(want))
+	}
+	return nil
+}
+
+// ReusedMapKeptOldEntries counts (atomically) decodes into an already populated Go map that left
+// entries of the previous content in place. doc.go does not say that a map destination is
+// cleared (the library only allocates a map when the destination is nil), so this is counted and
+// not judged.
+var ReusedMapKeptOldEntries int64
+
+// MatchReused is MatchTop for a destination that held another value before the decode: the same
+// equality is required, except that a top-level Go map that kept entries of its previous
+// content is counted (ReusedMapKeptOldEntries) and not judged.
+func MatchReused(eff *Repr, t *cqlref.Type, v *cqlref.Value, val reflect.Value) error {
+	if !v.Null && (eff.K == RMap || eff.K == RStrMap) && val.Kind() == reflect.Map && val.Len() > v.Len(t) {
+		atomic.AddInt64(&ReusedMapKeptOldEntries, 1)
+		return nil
+	}
+	return MatchTop(eff, t, v, val)
 }
 
 func matchSeq(r *Repr, t *cqlref.Type, v *cqlref.Value, got reflect.Value, path string, bad func(string, ...interface{}) error) error {
